@@ -103,6 +103,17 @@ def gen_case(seed, tier='quick', max_geos=None, degenerate=False):
     if r3.random() < 0.7:
       par['volume_ratio_tolerance'] = r3.choice([0.1, 0.2, 0.5, 1.0])
     case['drift'] = gs
+  if r3.random() < 0.12:
+    # integer parameters given as integer-valued floats (accepted by the parameter class)
+    which = r3.sample(['n_test', 'n_geos_max', 'n_pretest_max', 'n_designs', 'treatment_geos_range', 'control_geos_range'], r3.randint(1, 3))
+    for k in which:
+      if k in par and par[k] is not None:
+        par[k] = tuple(float(v) for v in par[k]) if isinstance(par[k], (tuple, list)) else float(par[k])
+    case['float_valued_integers'] = which
+  if r3.random() < 0.1 and 'zero_sum_geo' not in case:
+    # responses are counts, stored in an integer column
+    case['rows'] = [[float(round(v)) for v in row] for row in case['rows']]
+    case['int_response'] = True
   return case
 
 
@@ -116,6 +127,8 @@ def frame_of(case):
     for t, v in enumerate(case['rows'][g]):
       recs.append({'geo': gid, 'date': t0 + pd.Timedelta(days=t), 'response': v})
   df = pd.DataFrame(recs)
+  if case.get('int_response') and all(float(v).is_integer() for v in df['response']):
+    df['response'] = df['response'].astype('int64')
   if case.get('shuffle'):
     df = df.sample(frac=1.0, random_state=case['seed'] % (2 ** 31)).reset_index(drop=True)
   return df
